@@ -274,7 +274,88 @@ def command_text(ev):
     raise ValueError(c)
 
 
-def run(trace, render=None, color=False, snapshot_db=True, keep_session=False, keep_raw=False):
+class ToolStuck(BaseException):
+    """the tool did not come back (or kept growing): raised from a timer inside the tool's own code; a BaseException, so
+    that the tool's catch-all handlers do not swallow it"""
+
+
+STUCK = {'n': 0}
+TIMES = []      # seconds per event of the runs so far
+
+
+def _rss_mb():
+    try:
+        with open('/proc/self/statm') as f:
+            return int(f.read().split()[1]) * 4096 // (1 << 20)
+    except Exception:
+        return 0
+
+
+class limit:
+    """Resource guard around one run of the tool in this process: a session that takes milliseconds when all is well may,
+    after a change to the tool, never finish or eat all memory (state shared between sessions that keeps growing).
+    seconds / growth are far beyond anything a working tool needs; exceeding them surfaces as an escaped ToolStuck."""
+
+    def __init__(self, seconds, grow_mb=3000):
+        self.seconds, self.grow_mb = seconds, grow_mb
+
+    def __enter__(self):
+        import signal, threading, time
+        self.on = threading.current_thread() is threading.main_thread()
+        if not self.on:
+            return self
+        t0, m0 = time.time(), _rss_mb()
+
+        def tick(signum, frame):
+            if time.time() - t0 > self.seconds:
+                raise ToolStuck('no answer from the tool after %d s' % self.seconds)
+            if _rss_mb() - m0 > self.grow_mb:
+                raise ToolStuck('the tool grew by more than %d MB while processing one session' % self.grow_mb)
+        self.old = signal.signal(signal.SIGALRM, tick)
+        signal.setitimer(signal.ITIMER_REAL, 1.0, 1.0)
+        return self
+
+    def __exit__(self, *exc):
+        import signal
+        if self.on:
+            signal.setitimer(signal.ITIMER_REAL, 0)
+            signal.signal(signal.SIGALRM, self.old)
+        return False
+
+
+def run(trace, *args, **kw):
+    """run_unguarded under the resource guard (see `limit`)"""
+    # the limit is relative to what sessions take in this process when all is well (milliseconds to a second): 300 times
+    # the median per event so far, at least 15 s; 150 s while nothing is known yet
+    import time
+    n = max(1, len(trace['events']))
+    if len(TIMES) >= 20:
+        med = sorted(TIMES)[len(TIMES) // 2]
+        secs = max(15.0, 300 * med * n)
+    else:
+        secs = 150 + n // 20
+    if STUCK['n']:
+        secs = min(secs, 15.0)
+    out = trace
+    t0 = time.time()
+    try:
+        with limit(secs):
+            out = run_unguarded(trace, *args, **kw)
+        if len(TIMES) < 2000:
+            TIMES.append((time.time() - t0) / n)
+    except ToolStuck:
+        import traceback
+        trace['escaped'] = traceback.format_exc()[-2000:]
+        for evrec in trace['events']:
+            evrec.pop('_nh_before', None)
+            if 'obs' not in evrec:
+                evrec['obs'] = {'items': []}
+    if 'ToolStuck' in trace.get('escaped', ''):
+        STUCK['n'] += 1
+    return out
+
+
+def run_unguarded(trace, render=None, color=False, snapshot_db=True, keep_session=False, keep_raw=False):
     """trace: {"init": {...}, "events": [{"in": ev}, ...]}; fills in every event's "obs".
 
     render: dict of printer options (dialect, mark, queue, offset).
